@@ -538,7 +538,9 @@ func (p *policy) applyGrant(grant Grant) {
 		if milliCPU == 0 {
 			milliCPU = 1000 * grant.ExclusiveCPUs().Size()
 		}
-		container.SetCPUShares(int64(cache.MilliCPUToShares(int64(milliCPU))))
+		if cpuType != cpuPreserve {
+			container.SetCPUShares(int64(cache.MilliCPUToShares(int64(milliCPU))))
+		}
 	}
 
 	if grant.MemoryType() == memoryPreserve {
